@@ -24,6 +24,13 @@ def classes_of(cs):
     cm = lib["cmd"]
     if cm["c"] == "ignoremember" and cs.cls[cm["k"] - 1]["members"][cm["i"] - 1]["k"] in ("data", "datap"):
         out.append("C04-ignoremember-data")
+    # a parameter / return type named through an alias of a reference type
+    def wraps(a):
+        A = lib["aliases"][a - 1]
+        return ({A["wrap"]} - {"plain"}) | (wraps(A["tc"]) if A["tt"] == "alias" else set())
+    uses = [m for k in cs.cls for m in k["members"] if m["k"] in ("usea", "reta")] + [d for d in lib["tops"] if d["k"] == "usefa"]
+    if any("cref" in wraps(u["ra"]) for u in uses):
+        out.append("C04-ref-alias-param")
     # a class that build() never scans (namespace member) and that an exported namespace-scope function mentions
     for d in lib["tops"]:
         if d["k"] == "usef" and d["region"] and not d["ns"] and cs.cls[d["rc"] - 1]["ns"]:
